@@ -2018,7 +2018,7 @@ class Explorer:
         self.enter(st, stack, fr, callee, cargs, None, None, cont, closure=True)
 
 
-SNAP_RE = re.compile(r"(::index(_mut)?$)|(::copy_from_slice$)|(ArcPayload::new$)|(::split_at$)")
+SNAP_RE = re.compile(r"(::index(_mut)?$)|(::copy_from_slice$)|(ArcPayload::new$)|(::split_at$)|(^std::ops::(Add::add|Sub::sub|Mul::mul)$)|(^core::panicking::)|(^std::panicking::)")
 
 
 def int_range(ty):
